@@ -3021,7 +3021,10 @@ func (b *IPRouteBody) decodeFromBytes(data []byte, version uint8, software Softw
 	}
 
 	b.backupNexthops = []Nexthop{} // backupNexthops is added in frr7.4
-	if b.Message&messageBackupNexthops.ToEach(version, software) > 0 {
+	// bit 0x40 means "backup nexthops" since frr7.4 only (same condition as in
+	// serialize); before that it is MESSAGE_LABEL (zapi5, frr6-7.2) or SRCPFX (zapi4)
+	if version == 6 && software.name == "frr" && software.version >= 7.4 &&
+		b.Message&messageBackupNexthops > 0 {
 		if rest < pos {
 			return errors.New("IPRouteBody backupnexthops data length is too short")
 		}
